@@ -97,6 +97,36 @@ pub fn run(run: &mut Run) {
             check_tree(run, &g, "tree");
         }
     }
+    // ---- repeated leaves: every tree with <= 2 operators with every assignment of the two names
+    //      {a, b} (integers {1, 2}) to its leaves (the trees above have pairwise distinct leaves;
+    //      a parser that recognises `x ? x : y` or `a && a` needs equal operands)
+    for n in 1..=2usize {
+        run.sub(&format!("trees-repeated-leaves-{}op", n));
+        let cnt = sp.count(n) as u64;
+        for i in 0..cnt {
+            let g0 = sp.unrank(n, i as u128);
+            let mut k = 0u32;
+            g0.clone().map_leaves(&mut |_| k += 1);
+            for code in 0..(1u64 << k) {
+                if !run.take() {
+                    continue;
+                }
+                let mut g = g0.clone();
+                let mut c = code;
+                g.map_leaves(&mut |leaf| {
+                    let bit = c & 1;
+                    c >>= 1;
+                    match leaf {
+                        G::Ident(name) => *name = if bit == 0 { "a".into() } else { "b".into() },
+                        G::Int(v) => *v = 1 + bit,
+                        _ => {}
+                    }
+                });
+                check_tree(run, &g, "tree-repeated");
+            }
+        }
+    }
+
     // ---- the extended form set (2-argument calls, 3-element lists, 2-entry maps, message
     //      construction): every tree with <= 2 (thorough 3) operators that uses an extended form
     {
